@@ -178,6 +178,9 @@ pub fn exec_seq(case: &Case) -> Verdict {
         if let Err(e) = simos::shadow_matches(&path) {
             v.harness_error = Some(format!("SimOS shadow differs from the real file: {}", e));
         }
+        if let Some(h) = crate::seq::HARNESS_FAULT.with(|p| p.borrow_mut().take()) {
+            v.harness_error = Some(format!("the harness itself panicked: {}", h));
+        }
         if simos::writable_maps() > 0 {
             v.harness_error = Some("a writable shared mapping was created: stores through it bypass the seam".into());
         }
